@@ -198,6 +198,25 @@ def run(tier):
     m3 = model.Model(ex)
     check_model(ck, m3, "examples", stats)
     c06.gen_summaries(ck, ex, None, "examples", r_move="K5-context-owner-only-rettmp-move", r_unbal="K5-context-owner-bypasses-drop")
+    # K6: Rust destroys fields in declaration order.  An object that is the last holder of the context must run its instance's
+    # destructor (code that lives in the library the context keeps loaded) *before* the context is released: in every container the
+    # `instance` field is declared before `context`
+    n_k6 = 0
+    for unit_f, unit, label in ((cf, None, "corpus"), (ct, "cglue-test", "cglue-tests"), (ex, None, "examples"), (facts.cfg_cglue(), "cglue-lib", "cglue")):
+        for a in (unit_f.adts(unit) if unit else unit_f.adts()):
+            if a.get("kind") != "struct" and len(a.get("variants", [])) != 1:
+                continue
+            names = [fl["name"] for fl in a["variants"][0]["fields"]]
+            if "instance" in names and "context" in names:
+                n_k6 += 1
+                ck.ob("K6-instance-destroyed-before-context", "%s/%s" % (label, a["path"]), names.index("instance") < names.index("context"),
+                      "%s declares `context` before `instance` (%s): when this object is the last holder, the context is released before the instance's destructor runs" % (a["path"], names),
+                      sample={"adt": a["path"], "fields": names})
+    ck.floor("containers holding an instance and a context", n_k6, 10)
+    # the context handle itself: CArc / CArcSome conserve the reference count (clone adds one, drop and every conversion hand over or
+    # release exactly one) -- the rules of C10, part of this property's statement whenever the context is a CArc
+    from rules import c10
+    c10.check_all(ck, tier)
     # positive control for K4: the controls crate has an orphan slot that must be seen as droppable storage without destructor
     ctl = corpus.controls_facts()
     oa = [a for a in ctl.adts() if a["name"] == "OrphanSlot"]
